@@ -879,11 +879,11 @@ Section Programs.
 
   (* EVERY access program returns exactly the corresponding part of the full read *)
   Theorem programs_spec : forall (h : handle) ops r, wf (h_rgs h) ->
-    run deqb neqb rows nrows ser deser h ops r
+    run_prog deqb neqb rows nrows ser deser h ops r
     = spec_run neqb (h_cols h) (h_pcols h) (h_index h)
                (chunks (map nrows (h_rgs h)) (concat (map rows (h_rgs h)))) ops r.
   Proof.
-    intros h ops r H. unfold run, spec_run. rewrite apply_hops_sel, <- wf_parts by exact H.
+    intros h ops r H. unfold run_prog, spec_run. rewrite apply_hops_sel, <- wf_parts by exact H.
     rewrite sel_hops_map. destruct (sel_hops ops (h_rgs h)) as [l|e] eqn:E; [|reflexivity].
     cbn [bind]. rewrite run_rd_spec; [reflexivity|].
     cbn [h_rgs with_rgs]. eapply wf_incl; [exact H|eapply sel_hops_incl; eauto].
